@@ -43,6 +43,7 @@ func run(c *vrt.Ctx) {
 	}
 	if want("mat") {
 		runMat(c)
+		runMatReuse(c)
 	}
 	if want("kernels") {
 		runBlasGuard(c)
